@@ -14,6 +14,10 @@ import KafkaVerif.Model.FetcherLife
 import KafkaVerif.Lemmas.FetcherLife
 import KafkaVerif.Lemmas.ReaderCloseSystem
 import KafkaVerif.Lemmas.GroupConns
+import KafkaVerif.Lemmas.WriterCloseDetail
+import KafkaVerif.Lemmas.WriterCloseProgress
+import KafkaVerif.Lemmas.WriterCloseMeasure
+import KafkaVerif.Lemmas.GroupCloseProgress
 
 namespace KV.C09
 open KV.WriterClose
@@ -580,7 +584,11 @@ open KV.WriterClose
 before it closes the queue; FetchMessage answers io.EOF when closed; Reader.Close order; `run` leaves the group before
 every exit; `leaveGroup`/`nextGeneration`/`coordinator` close their connections on every path; `conn.run` leaves its
 loop when `releaseConn` refuses; the waits of WriteMessages / FetchMessage / CommitMessages / `await` /
-`grabConnOrConnect` select on the context. -/
+`grabConnOrConnect` select on the context; the fetcher's `initialize` closes its connection when reading the offsets or
+the seek fails; ReadLag closes its probe connection and its loop ends with the context; `run`, `Next`, `sleep`, the
+heartbeat and partition-watcher loops select on done / their context; `Generation.close` waits for its goroutines; a
+connect that completes after its caller left is released or closed; the pool's last `unref` closes and cancels;
+Writer.Close closes its own transport. -/
 theorem close_protocol_facts_hold : Gen.CloseFacts.all.all (·.2) = true := by decide
 
 /-- the Writer protocol the source has now is the repaired one (`Cfg.fixed` is the extracted fact) … -/
@@ -738,5 +746,134 @@ theorem reader_system_close_progress (c : Group.Cfg) (s : ReaderCloseSystem.Stat
     ∃ e, (ReaderCloseSystem.internal e = true ∨ ∃ gi acc, e = .group (.gStart gi acc)) ∧
       (ReaderCloseSystem.step c s e).isSome :=
   ReaderCloseSystem.system_progress c s hi hm hw
+
+end KV.C09
+
+/-! ## Writer.Close on the detailed Writer model (Model/Writer.lean, tied deterministically by C01/C07/C08) -/
+namespace KV.C09
+
+/-- **writer_detail_close_return_complete** — on the writer builder's 25-event Writer LTS (every hook event of
+writer.go is one model event; C01/C07/C08 replay the recorded hook traces through it one-to-one): in every reachable
+state in which `Close` may return (`closeReturn` enabled: closed, WaitGroup counter zero, every partition writer's
+goroutine exited)
+* every WriteMessages call that ever began has returned,
+* every batch ever created is done, and with a Completion callback configured the callback ran exactly once for it,
+  with the batch's final error code,
+* every message of every call that got through `batchMessages` (result ok / async / ctx / write errors) sits in such
+  a batch: it was sent, or its attempts were exhausted, before Close returned.
+This is `all_completed_before_close_return` restated on the model whose tie is deterministic; the liveness half
+(`close_terminates`) stays on Model/WriterClose. -/
+theorem writer_detail_close_return_complete (cfg : KV.Writer.Cfg) (s s' : KV.Writer.State)
+    (hr : KV.Writer.Reachable cfg s) (hs : KV.Writer.step cfg s .closeReturn = some s') :
+    (∀ c C, s.calls c = some C → C.phase = .returned) ∧
+    (∀ b B, s.batches b = some B → ∃ code, B.done = some code ∧
+       (cfg.completion = true → B.ncompl = 1 ∧ B.cbCode = some code) ∧ (cfg.completion = false → B.ncompl = 0)) ∧
+    (∀ c C, s.calls c = some C → KV.WriterCloseDetail.accepted C = true → ∀ i, i < C.msgs.length →
+       ∃ b B code, C.place i = some b ∧ s.batches b = some B ∧ (∃ m ∈ B.msgs, m.msg = (c, i)) ∧ B.done = some code) :=
+  KV.WriterCloseDetail.close_return_complete cfg s s' hr hs
+
+/-- the invariants behind it hold in every reachable state of the detailed model -/
+theorem writer_detail_close_invariants (cfg : KV.Writer.Cfg) (s : KV.Writer.State) (hr : KV.Writer.Reachable cfg s) :
+    KV.WriterCloseDetail.DI s ∧ KV.WriterCloseDetail.CI s ∧ KV.WriterCloseDetail.AI s :=
+  ⟨KV.WriterCloseDetail.di_reachable cfg s hr, KV.WriterCloseDetail.ci_reachable cfg s hr,
+   KV.WriterCloseDetail.ai_reachable cfg s hr⟩
+
+/-- **writer_detail_close_progress** — Close cannot get stuck on the detailed Writer model: in every reachable state
+with the writer closed in which `closeReturn` is not yet enabled, some driven event is enabled — a step of Close (detach
+the open batch, queue it, close a queue, release the mutex), of a partition writer's goroutine (take a batch, attempt,
+broker decision, Completion, complete, exit on the closed empty queue), or of a call already inside WriteMessages (next
+balancing step, ErrClosedPipe, return).  No new caller, no context cancellation and no batch timer is needed.
+(`MaxAttempts ≥ 1` is the library's own normalisation.)  The original D1 window is excluded by the model's guards
+`batch` / `newPW` requiring `closed = false`, which C01/C07/C08 tie to the code trace by trace. -/
+theorem writer_detail_close_progress (cfg : KV.Writer.Cfg) (hmax : 1 ≤ cfg.maxAttempts) (s : KV.Writer.State)
+    (hr : KV.Writer.Reachable cfg s) (hc : s.closed = true) (hn : KV.Writer.step cfg s .closeReturn = none) :
+    ∃ e, KV.WriterCloseDetail.driven e = true ∧ (KV.Writer.step cfg s e).isSome = true :=
+  KV.WriterCloseDetail.close_progress cfg hmax s hr hc hn
+
+/-- the invariants the progress proof adds -/
+theorem writer_detail_progress_invariants (cfg : KV.Writer.Cfg) (s : KV.Writer.State) (hr : KV.Writer.Reachable cfg s) :
+    KV.WriterCloseDetail.PI s ∧ KV.WriterCloseDetail.QI s ∧ KV.WriterCloseDetail.CS cfg s :=
+  ⟨KV.WriterCloseDetail.pi_reachable cfg s hr, KV.WriterCloseDetail.qi_reachable cfg s hr,
+   KV.WriterCloseDetail.cs_reachable cfg s hr⟩
+
+/-- **writer_detail_close_measure_decreases** — on the detailed Writer model every *closing* event (a step of Close after
+its begin, of a partition writer's goroutine, of the broker, of a call already past `enter()`) strictly lowers
+`closeMu` = [Close holds the mutex] + calls between `enter()` and their identification + Σ partition writers (sender
+steps left, queued / pending / open batches, queue still open, goroutine not exited) + Σ calls (steps to their return),
+in every reachable state — except that a call identifying itself (`begin_`) first brings its own work (`evCost`). -/
+theorem writer_detail_close_measure_decreases (cfg : KV.Writer.Cfg) (hmax : 1 ≤ cfg.maxAttempts) (s s' : KV.Writer.State)
+    (hr : KV.Writer.Reachable cfg s) (e : KV.Writer.Event) (hcl : KV.WriterCloseDetail.closing s e = true)
+    (hs : KV.Writer.step cfg s e = some s') :
+    KV.WriterCloseDetail.closeMu cfg s' < KV.WriterCloseDetail.closeMu cfg s + KV.WriterCloseDetail.evCost e :=
+  KV.WriterCloseDetail.closing_decreases cfg hmax s s' hr e hcl hs
+
+/-- **writer_detail_close_terminates** — Close terminates on the detailed Writer model in every schedule: from a
+reachable state with the writer closed, every run of closing events has at most `closeMu` + `runCost` steps (`runCost`:
+the work of the at most `entered` calls that passed `enter()` before Close and identify themselves during the run), and
+a run that cannot be extended ends in a state in which `closeReturn` is enabled.  (Outside the closing set: new callers,
+further Close calls, timers — Close needs none —, and the events that need an open writer, which are disabled once
+`closed`.)  With `writer_detail_close_return_complete` this is the whole Writer clause of C09 on the model that
+C01/C07/C08 replay hook traces through one event at a time. -/
+theorem writer_detail_close_terminates (cfg : KV.Writer.Cfg) (hmax : 1 ≤ cfg.maxAttempts) (s : KV.Writer.State)
+    (hr : KV.Writer.Reachable cfg s) (hc : s.closed = true) (es : List KV.Writer.Event)
+    (s' : KV.Writer.State) (hrun : KV.WriterCloseDetail.closingRun cfg s es = some s') :
+    es.length ≤ KV.WriterCloseDetail.closeMu cfg s + KV.WriterCloseDetail.runCost es ∧
+    ((∀ e, KV.WriterCloseDetail.closing s' e = true → KV.Writer.step cfg s' e = none) →
+      (KV.Writer.step cfg s' .closeReturn).isSome = true) :=
+  KV.WriterCloseDetail.close_terminates_detail cfg hmax s hr hc es s' hrun
+
+/-- not vacuous: a run of the detailed model in which Close begins while a batch is still queued, the batch is then
+sent, its Completion runs, the call returns, the sender exits and Close returns -/
+def detailCfg : KV.Writer.Cfg :=
+  { batchSize := 1, batchBytes := 100, maxAttempts := 1, async := false, completion := true, topic := "t",
+    retriable := fun _ => false }
+
+example : KV.Writer.accepts detailCfg
+    [.enter true, .begin_ 1 [{ size := 1, topic := "" }], .assign 1 0 ("t", 0), .batch 1,
+     .newPW 1 1 ("t", 0), .newBatch 1 1, .add 1 1 1 0 1, .detach 1 1 .full 0, .qput 1 1 true, .batched 1,
+     .closeBegin, .qclose 1, .closeMarked 1,
+     .qget 1 (some 1), .attempt 1 1 0, .produce 1 ("t", 0) [(1, 0)] .acked, .attemptDone 1 1 0 0,
+     .completion 1 1 0, .complete 1 1 0, .ret 1 .ok, .qget 1 none, .closeReturn] = true := by decide
+
+/-- … and everything between CloseBegin and CloseReturn in that run is a closing event -/
+example : ((KV.Writer.run detailCfg KV.Writer.State.init
+    [.enter true, .begin_ 1 [{ size := 1, topic := "" }], .assign 1 0 ("t", 0), .batch 1,
+     .newPW 1 1 ("t", 0), .newBatch 1 1, .add 1 1 1 0 1, .detach 1 1 .full 0, .qput 1 1 true, .batched 1,
+     .closeBegin]).bind (fun s => KV.WriterCloseDetail.closingRun detailCfg s
+    [.qclose 1, .closeMarked 1, .qget 1 (some 1), .attempt 1 1 0, .produce 1 ("t", 0) [(1, 0)] .acked,
+     .attemptDone 1 1 0 0, .completion 1 1 0, .complete 1 1 0, .ret 1 .ok, .qget 1 none])).isSome = true := by decide
+
+end KV.C09
+
+/-! ## inside `gen.close()` (Lemmas/GroupCloseProgress.lean) -/
+namespace KV.C09
+
+/-- **group_close_wait_progress** — while the `run` goroutine waits inside `(*Generation).close` (`<-g.joined`), in
+every reachable state either `close()` can return or one of the generation's functions can take a step towards its
+exit: a pending exit section, the heartbeat loop, a partition watcher (their coordinator calls return; they see the
+cancelled generation context), or an application function still inside its body (`Generation.Start`'s contract; for
+the Reader: the commit loop and the unsubscribe function).  Rests on the accounting invariant `routines` = pending exit
+sections + live heartbeat + live accounted watchers + application functions inside their body. -/
+theorem group_close_wait_progress (c : Group.Cfg) (s : Group.St) (hr : Group.Reachable c s) (ret : Option Group.Err)
+    (r : Nat) (hp : s.pc = .waiting ret r) :
+    ∃ e, GroupClose.genEv e = true ∧ (Group.step c s e).isSome = true :=
+  GroupClose.waiting_progress c s hr ret r hp
+
+/-- **group_run_progress** — `group_run_progress_partial` without its exception: once the group is closed the `run`
+goroutine (or, inside `gen.close()`, a function of the generation it waits for) has an enabled step in every reachable
+state until `run` has exited. -/
+theorem group_run_progress (c : Group.Cfg) (s : Group.St) (hr : Group.Reachable c s) (hc : s.closedCG = true)
+    (hx : s.pc ≠ .exited) :
+    ∃ e, (e.runLoop = true ∨ (∃ g acc, e = .gStart g acc) ∨ GroupClose.genEv e = true) ∧
+      (Group.step c s e).isSome = true :=
+  GroupClose.run_progress_full c s hr hc hx
+
+/-- **reader_system_close_progress_full** — `reader_system_close_progress` without its exception: while Reader.Close
+waits after the mark some component can always move. -/
+theorem reader_system_close_progress_full (c : Group.Cfg) (s : ReaderCloseSystem.State)
+    (hi : ReaderCloseSystem.Inv c s) (hm : s.close = 2) :
+    ∃ e, (ReaderCloseSystem.internal e = true ∨ (∃ gi acc, e = .group (.gStart gi acc)) ∨
+          ∃ ge, e = .group ge ∧ GroupClose.genEv ge = true) ∧ (ReaderCloseSystem.step c s e).isSome = true :=
+  GroupClose.system_progress_full c s hi hm
 
 end KV.C09
